@@ -268,6 +268,12 @@ func c03(c *Ctx) {
 			st := one(c, "re-activation in "+shortName(pr.f), sts)
 			c.MustFact(st, "only-streams-waiting-for-quota", Cmp(FieldLoad(fState), token.EQL, waiting))
 			c.MustFact(st, pr.name, pr.more)
+			// and nothing else: every waiting stream is re-activated when credit arrives
+			c.OnlyFacts(st, "re-activation-has-no-further-precondition:"+pr.name,
+				Cmp(FieldLoad(fState), token.EQL, waiting), pr.more,
+				Truth(CommaOkOf(FieldLoad(c.field(tr, "loopyWriter", "estdStreams"))), true),
+				Cmp(FieldLoad(c.field(tr, "incomingWindowUpdate", "streamID")), token.NEQ, ConstInt(0)),
+				Cmp(FieldLoad(c.field(h2, "Setting", "ID")), token.EQL, ConstOfObj(c.konst(h2, "SettingInitialWindowSize"))))
 		}
 		// the window-grew comparison compares the OLD window with the NEW one
 		so := one(c, "oiws store", storesToField(as, fOiws))
